@@ -21,6 +21,7 @@ static uint8_t buf[64];
 static int reports;
 static Error last_reported;
 static int n_logged;   // calls of the (stubbed) instruction logger
+static bool state_cleared_at_report;   // was the one-shot state already cleared when the error reached the handler? (a throwing handler never returns)
 
 static inline x86::Assembler* assembler() { return &asm_store.v; }
 static inline CodeHolder* holder() { return &code_store.v; }
@@ -55,12 +56,20 @@ static inline size_t emitted() { return size_t(assembler()->_buffer_ptr - buf); 
 
 // Failure path without logging/formatting (the ASMJIT_NO_LOGGING branch of the real function): formatting is C20's subject.
 ASMJIT_BEGIN_NAMESPACE
-Error BaseEmitter::_report_error(Error err, const char*) { venv::reports++; venv::last_reported = err; return err; }
+Error BaseEmitter::_report_error(Error err, const char*) {
+  venv::reports++; venv::last_reported = err;
+  venv::state_cleared_at_report = uint32_t(_inst_options) == 0 && !_extra_reg.is_reg() && _inline_comment == nullptr;
+  return err;
+}
 namespace EmitterUtils {
+#ifndef VENV_REAL_FAILURE_PATH   // define it to link the real EmitterUtils::log_instruction_failed (core/emitterutils.cpp)
 Error log_instruction_failed(BaseEmitter* self, Error err, InstId, InstOptions, const Operand_&, const Operand_&, const Operand_&, const Operand_*) {
   self->reset_state(); return self->report_error(err);
 }
+#endif
+#ifndef VENV_REAL_FAILURE_PATH
 // Logging of an emitted instruction is text formatting (C20); here it only counts.
 void log_instruction_emitted(BaseAssembler*, InstId, InstOptions, const Operand_&, const Operand_&, const Operand_&, const Operand_*, uint32_t, uint32_t, uint8_t*) { venv::n_logged++; }
+#endif
 }
 ASMJIT_END_NAMESPACE
